@@ -15,7 +15,7 @@
 (* fingerprint by VIEW, so TLC keeps one shortest sequence per state) for replay into lopdf.     *)
 EXTENDS SecuritySys, TLC, Json
 
-CONSTANTS DocIds, V2Lens, V4Stm, V4Str, EMs, IdCfs, V5Kinds, V5Flt, Pairs, Attempts, MaxDepth, Emit, KnownTags
+CONSTANTS Prune, DocIds, V2Lens, V4Stm, V4Str, EMs, IdCfs, V5Kinds, V5Flt, Pairs, Attempts, MaxDepth, Emit, KnownTags
 
 VARIABLE hist
 
@@ -105,8 +105,15 @@ AttemptsFull  == {"W", "E", "L2", "S32", "H2", "T127", "N2"}
 AllKnown == {"owner.R234.key", "streamdict.string", "pw.gt127.R56", "crypt.dparray", "metadata.nonstream"}
 
 -----------------------------------------------------------------------------
+\* Prune = TRUE: not the full product - every configuration x every document with the pair <<"A","B">>, and every
+\* password pair on document D1 with one configuration per revision class (passwords do not interact with the walk)
+Combo(b, p, d) ==
+    Prune => \/ p = <<"A", "B">>
+             \/ d = "D1" /\ b.em /\ b.stmf # "Identity" /\ b.strf # "Identity" /\ b.klen \in {40, 128, 256}
+                /\ (b.V = 4 => b.cf[1][2] = b.cf[2][2])
+
 Init ==
-    /\ \E b \in CfgSet, p \in Pairs, d \in DocIds : SysInit(FullCfg(b, p[1], p[2], d, Len(DocOf(d))), DocOf(d))
+    /\ \E b \in CfgSet, p \in Pairs, d \in DocIds : Combo(b, p, d) /\ SysInit(FullCfg(b, p[1], p[2], d, Len(DocOf(d))), DocOf(d))
     /\ hist = <<>>
 
 Toks == {cfg.user, cfg.owner} \cup Attempts
@@ -120,14 +127,15 @@ Entry ==
 
 Rec == hist' = Append(hist, Entry)
 
-MakeStateH == MakeState /\ Rec
+\* calls that cannot change anything are not explored: a second MakeState, authentication of a document without /Encrypt
+MakeStateH == encState = NoSt /\ MakeState /\ Rec
 EncryptH   == Encrypt /\ Rec
 SaveH      == Save /\ Rec
 LoadH      == Load /\ Rec
 DecryptH   == \E t \in Toks : Decrypt(RelOf(t), t) /\ Rec
-AuthUserH  == \E t \in Toks : AuthUser(RelOf(t), t) /\ Rec
-AuthOwnerH == \E t \in Toks : AuthOwner(RelOf(t), t) /\ Rec
-AuthH      == \E t \in Toks : Auth(RelOf(t), t) /\ Rec
+AuthUserH  == trailerEncrypt # 0 /\ \E t \in Toks : AuthUser(RelOf(t), t) /\ Rec
+AuthOwnerH == trailerEncrypt # 0 /\ \E t \in Toks : AuthOwner(RelOf(t), t) /\ Rec
+AuthH      == trailerEncrypt # 0 /\ \E t \in Toks : Auth(RelOf(t), t) /\ Rec
 
 Next == MakeStateH \/ EncryptH \/ SaveH \/ LoadH \/ DecryptH \/ AuthUserH \/ AuthOwnerH \/ AuthH
 
